@@ -194,8 +194,12 @@ THCleared == Ev("HCleared") /\ Adv /\ HClear /\ TUNCH
 THRemoved == Ev("HRemoved") /\ Adv /\ HRemove /\ R.n = Cardinality(listed) /\ TUNCH
 THFlag == Ev("HFlag") /\ Adv /\ HFlag /\ TUNCH
 
+\* the MainExit hook sits just before `main` returns: other threads may still log an event or two
+\* before the process is really gone; such events change nothing in the model
+TAfterExit == More /\ exited /\ R.ev # "Reset" /\ Adv /\ Stutter /\ TUNCH
+
 TNext ==
-  \/ TReset
+  \/ TReset \/ TAfterExit
   \/ TSendStart \/ (\E w \in W : TEnqueue(w)) \/ TSendDone \/ TWStart \/ TSpawn
   \/ TTempCreate \/ TTempRegister \/ TReaderDrop \/ TWReturn
   \/ TEnterSel \/ TDequeue \/ TDisc \/ TRecv \/ TSelNone \/ TFiAll \/ TFirstPrint
